@@ -532,6 +532,52 @@ def chunk_last(ctx, rr):
                         if len(others) == 1:
                             N_ = others[0]
                             ok = txt in ('%s==%s-1' % (I, N_), '%s-1==%s' % (N_, I), '%s+1==%s' % (I, N_), '%s>=%s-1' % (I, N_))
+                    if ok is None and isinstance(f.iter, ast.Call) and isinstance(f.iter.func, ast.Name) and f.iter.func.id == 'range' and len(f.iter.args) == 3 \
+                            and isinstance(f.target, ast.Name) and isinstance(flag, ast.Compare) and len(flag.ops) == 1:
+                        # strided form `for start in range(0, L, size)`: the round is the last one iff start + size >= L
+                        from ..dataflow import resolve_locals as _rl
+                        I = f.target.id
+
+                        def lin(e):
+                            if isinstance(e, ast.Constant) and isinstance(e.value, int) and not isinstance(e.value, bool):
+                                return {'': e.value}
+                            if isinstance(e, ast.BinOp) and isinstance(e.op, (ast.Add, ast.Sub)):
+                                a_, b_ = lin(e.left), lin(e.right)
+                                if a_ is None or b_ is None:
+                                    return None
+                                sg = 1 if isinstance(e.op, ast.Add) else -1
+                                o_ = dict(a_)
+                                for k_, v_ in b_.items():
+                                    o_[k_] = o_.get(k_, 0) + sg * v_
+                                return o_
+                            if isinstance(e, (ast.Name, ast.Call, ast.Attribute)):
+                                return {ast.unparse(e).replace(' ', ''): 1}
+                            return None
+                        a0, a1, a2 = [_rl(P, u, x, keep=(I,)) for x in f.iter.args]
+                        fl = _rl(P, u, flag, keep=(I,))
+                        L_, R_ = lin(fl.left), lin(fl.comparators[0])
+                        e0, eL, eS = lin(a0), lin(a1), lin(a2)
+                        if L_ is not None and R_ is not None and e0 == {'': 0} and eL is not None and eS is not None:
+                            op = fl.ops[0]
+                            # normalise to  D >= 0
+                            def sub(x_, y_, c_=0):
+                                o_ = dict(x_)
+                                for k_, v_ in y_.items():
+                                    o_[k_] = o_.get(k_, 0) - v_
+                                o_[''] = o_.get('', 0) + c_
+                                return {k_: v_ for k_, v_ in o_.items() if v_}
+                            D = None
+                            if isinstance(op, ast.GtE):
+                                D = sub(L_, R_)
+                            elif isinstance(op, ast.Gt):
+                                D = sub(L_, R_, -1)
+                            elif isinstance(op, ast.LtE):
+                                D = sub(R_, L_)
+                            elif isinstance(op, ast.Lt):
+                                D = sub(R_, L_, -1)
+                            want = sub(sub({I: 1}, {k_: -v_ for k_, v_ in eS.items()}), eL)
+                            if D is not None and set(D) - {''} == set(want) - {''}:
+                                ok = D == want
                     if ok is None:
                         raise AnalysisError('R-CHUNK-LAST: is-last expression `%s` of %s not recognised' % (ast.unparse(flag), u.qual))
                     rr.ob(ctx.where(u, y), 'the is-last flag `%s` is true exactly on the last iteration of the chunk loop' % ast.unparse(flag), ok=ok)
